@@ -175,7 +175,10 @@ detail::temporary_allocator_dtor_t::~temporary_allocator_dtor_t() noexcept
 temporary_stack_initializer::temporary_stack_initializer(std::size_t initial_size)
 {
     if (!temp_stack)
+    {
         temp_stack = temporary_stack_list_obj.create(initial_size);
+        (void)&thread_exit_detector; // ODR-use it also when an existing stack was adopted
+    }
 }
 
 temporary_stack_initializer::~temporary_stack_initializer() noexcept
@@ -194,7 +197,10 @@ temporary_stack_initializer::~temporary_stack_initializer() noexcept
 temporary_stack& foonathan::memory::get_temporary_stack(std::size_t initial_size)
 {
     if (!temp_stack)
+    {
         temp_stack = temporary_stack_list_obj.create(initial_size);
+        (void)&thread_exit_detector; // ODR-use it also when an existing stack was adopted
+    }
     return *temp_stack;
 }
 
